@@ -18,6 +18,18 @@ from ..visit.client_visitor import ClientVisitor
 from ..visit.endpoint.endpoint_visitor import EndpointVisitor
 
 
+def _tag_score(t: str) -> tuple[bool, int, int, str]:
+    """Rank spellings of one tag; must agree with EndpointsEmitter.emit and ClientVisitor."""
+    import re
+
+    is_pascal = bool(re.search(r"[a-z][A-Z]", t)) or bool(re.search(r"[A-Z]{2,}", t))
+    words = re.findall(r"[A-Z]?[a-z]+|[A-Z]+(?![a-z])|[0-9]+", t)
+    words += re.split(r"[_-]+", t)
+    word_count = len([w for w in words if w])
+    upper = sum(1 for c in t if c.isupper())
+    return (is_pascal, word_count, upper, t)
+
+
 class MocksEmitter:
     """Generates mock helper classes for testing."""
 
@@ -112,11 +124,19 @@ class MocksEmitter:
 
     def _group_operations_by_tag(self, spec: IRSpec) -> dict[str, list[IROperation]]:
         """Group operations by their OpenAPI tag."""
-        operations_by_tag: dict[str, list[IROperation]] = defaultdict(list)
-
+        # Group exactly like the endpoints and the client are grouped: every tag of an operation counts,
+        # tags that only differ in spelling share one client, and the canonical spelling is chosen the same way.
+        tag_key_to_ops: dict[str, list[IROperation]] = defaultdict(list)
+        tag_key_to_candidates: dict[str, list[str]] = defaultdict(list)
         for operation in spec.operations:
-            tag = operation.tags[0] if operation.tags else "default"
-            operations_by_tag[tag].append(operation)
+            for tag in operation.tags or ["default"]:
+                key = NameSanitizer.normalize_tag_key(tag)
+                tag_key_to_ops[key].append(operation)
+                tag_key_to_candidates[key].append(tag)
+
+        operations_by_tag: dict[str, list[IROperation]] = {}
+        for key, ops_for_tag in tag_key_to_ops.items():
+            operations_by_tag[max(tag_key_to_candidates[key], key=_tag_score)] = ops_for_tag
 
         return operations_by_tag
 
